@@ -96,9 +96,11 @@ class RSocketClient(RSocketBase):
             if new_transport is None:
                 raise RSocketNoAvailableTransport()
 
-            self._next_transport.set_result(new_transport)
-            transport = await self._current_transport()
-            await transport.connect()
+            try:
+                await new_transport.connect()
+            finally:
+                # resolved only now: the sender must not start writing before SETUP has been queued
+                self._next_transport.set_result(new_transport)
         finally:
             self._connecting = False
 
